@@ -101,14 +101,19 @@ func app(sort string, op string, args ...Term) Term {
 			return args[1]
 		}
 	}
-	if sort == sBool && len(args) == 2 && (op == "<=" || op == "<") {
+	if sort == sBool && len(args) == 2 && (op == "<=" || op == "<" || op == ">=" || op == ">") {
 		a, aok := litVal(args[0])
 		b, bok := litVal(args[1])
 		if aok && bok {
-			if op == "<=" {
+			switch op {
+			case "<=":
 				return boolLit(a <= b)
+			case "<":
+				return boolLit(a < b)
+			case ">=":
+				return boolLit(a >= b)
 			}
-			return boolLit(a < b)
+			return boolLit(a > b)
 		}
 	}
 	var sb strings.Builder
@@ -217,6 +222,11 @@ func mkImplies(a, b Term) Term {
 }
 
 func mkEq(a, b Term) Term {
+	if av, aok := litVal(a); aok && a.Sort == sInt {
+		if bv, bok := litVal(b); bok && b.Sort == sInt {
+			return boolLit(av == bv)
+		}
+	}
 	if a.S == b.S {
 		if a.Sort == sF64 {
 			// structural identity of FP terms; callers wanting IEEE == use fpEq
